@@ -60,7 +60,7 @@ Theorem c10_get_after_set_partial : forall env fo ko o og tv S t p sp fl ty d v 
   (forall j, tv <> TVJsonIetf j) -> decode_tv env ko (s_tol_json o) ty tv = Ok v ->
   set_node env fo ko o tv S t p = Ok t' ->
   sub_at t' sp = Some (TLeaf v)
-  /\ (exists q, get_node env ko og S t' p = Ok [{| gn_path := q; gn_data := Some (TLeaf v) |}])
+  /\ (exists q, get_node env fo ko og S t' p = Ok [{| gn_path := q; gn_data := Some (TLeaf v) |}])
   /\ root_ok env fo ko S t' /\ frame (Some t) (Some t') sp.
 Proof. intros env fo ko o og tv S t p sp fl ty d v t' H1 H2 H3 H4. exact (get_after_set env fo ko o og H1 H2 H3 H4 tv S t p sp fl ty d v t'). Qed.
 Print Assumptions c10_get_after_set_partial.
@@ -73,7 +73,7 @@ Theorem c10_get_after_set_json_partial : forall env fo ko o og j S t p sp fl ty 
   j <> JNull -> dec_json env fo ty j = Ok v ->
   set_node env fo ko o (TVJsonIetf j) S t p = Ok t' ->
   sub_at t' sp = Some (TLeaf v)
-  /\ (exists q, get_node env ko og S t' p = Ok [{| gn_path := q; gn_data := Some (TLeaf v) |}])
+  /\ (exists q, get_node env fo ko og S t' p = Ok [{| gn_path := q; gn_data := Some (TLeaf v) |}])
   /\ root_ok env fo ko S t' /\ frame (Some t) (Some t') sp.
 Proof. intros env fo ko o og j S t p sp fl ty d v t' H1 H2 H3 H4. exact (get_after_set_json env fo ko o og H1 H2 H3 H4 j S t p sp fl ty d v t'). Qed.
 Print Assumptions c10_get_after_set_json_partial.
@@ -86,7 +86,7 @@ Theorem c10_get_after_set_leaflist_partial : forall env fo ko o og tvs S t p sp 
   set_node env fo ko o (TVLeafList tvs) S t p = Ok t' ->
   exists vs, tvs <> [] /\ mapM (decode_tv env ko (s_tol_json o) ty) tvs = Ok vs
     /\ sub_at t' sp = Some (TLeafList vs)
-    /\ (exists q, get_node env ko og S t' p = Ok [{| gn_path := q; gn_data := Some (TLeafList vs) |}])
+    /\ (exists q, get_node env fo ko og S t' p = Ok [{| gn_path := q; gn_data := Some (TLeafList vs) |}])
     /\ root_ok env fo ko S t' /\ frame (Some t) (Some t') sp.
 Proof. intros env fo ko o og tvs S t p sp fl ty mn mx t' H1 H2 H3 H4. exact (get_after_set_leaflist env fo ko o og H1 H2 H3 H4 tvs S t p sp fl ty mn mx t'). Qed.
 Print Assumptions c10_get_after_set_leaflist_partial.
@@ -100,7 +100,7 @@ Theorem c10_set_general_partial : forall env fo ko o og tv S t p sp fl ss t',
   set_node env fo ko o tv S t p = Ok t' ->
   exists nl, set_leaf env fo ko o tv ss (sub_at t sp) = (nl, Ok tt)
     /\ sub_at t' sp = nl /\ root_ok env fo ko S t' /\ frame (Some t) (Some t') sp
-    /\ get_post og nl (get_node env ko og S t' p).
+    /\ get_post og nl (get_node env fo ko og S t' p).
 Proof. intros env fo ko o og tv S t p sp fl ss t' H1 H2 H3 H4. exact (set_node_at env fo ko o og H1 H2 H3 H4 tv S t p sp fl ss t'). Qed.
 Print Assumptions c10_set_general_partial.
 
@@ -109,7 +109,7 @@ Print Assumptions c10_set_general_partial.
 Theorem c10_get_reads_address : forall env fo ko og S t p sp fl ss kl,
   g_shadow og = false -> g_wild og = false -> swfb S = true -> root_ok env fo ko S t ->
   addr_of env fo ko S p = Some (sp, fl, ss, kl) ->
-  get_post og (sub_at t sp) (get_node env ko og S t p).
+  get_post og (sub_at t sp) (get_node env fo ko og S t p).
 Proof. exact get_node_at. Qed.
 Print Assumptions c10_get_reads_address.
 
@@ -161,13 +161,13 @@ Theorem c10_history_last_partial : forall env fo ko o og S,
   (forall sp', In sp' sps2 -> ~ sprefix sp sp') ->
   set_seq env fo ko o S t (ops1 ++ (p, tv) :: ops2) = Ok t' ->
   sub_at t' sp = Some (TLeaf v)
-  /\ exists q, get_node env ko og S t' p = Ok [{| gn_path := q; gn_data := Some (TLeaf v) |}].
+  /\ exists q, get_node env fo ko og S t' p = Ok [{| gn_path := q; gn_data := Some (TLeaf v) |}].
 Proof. exact set_seq_last. Qed.
 Print Assumptions c10_history_last_partial.
 
 (* ---------- 4. totality ---------- *)
 (* GetNode never panics (no hypothesis) *)
-Theorem c10_get_total : forall env ko o S t p, get_node env ko o S t p <> Panic.
+Theorem c10_get_total : forall env fo ko o S t p, get_node env fo ko o S t p <> Panic.
 Proof. exact get_node_no_panic. Qed.
 Print Assumptions c10_get_total.
 
@@ -214,7 +214,7 @@ Print Assumptions c10_refuted_noncanonical_key.
 (* the Path GetNode reports for a multi-key entry carries the keys in sorted order, not as given
    (so `gn_path = p` in the candidate fails even for canonical keys) *)
 Example c10_reported_path_has_sorted_keys :
-  map gn_path (match get_node ex_env ex_ko ex_get ex_schema ex_tree (p_acl_descr "a1" "ACL_IPV4") with Ok l => l | _ => [] end)
+  map gn_path (match get_node ex_env ex_fo ex_ko ex_get ex_schema ex_tree (p_acl_descr "a1" "ACL_IPV4") with Ok l => l | _ => [] end)
   = [[el "acls"; elk "acl" [("name", "a1"); ("type", "ACL_IPV4")]; el "config"; el "description"]]
   /\ p_acl_descr "a1" "ACL_IPV4" = [el "acls"; elk "acl" [("type", "ACL_IPV4"); ("name", "a1")]; el "config"; el "description"].
 Proof. split; vm_compute; reflexivity. Qed.
@@ -268,7 +268,7 @@ Proof. repeat split; vm_compute; reflexivity. Qed.
    only other additions *)
 Example c10_nested_list_example :
   exists t', set_node ex_env ex_fo ex_ko ex_set (TVString (s_ "x")) ex_schema ex_tree (p_subdescr "eth2" "7") = Ok t'
-    /\ (exists q, get_node ex_env ex_ko ex_get ex_schema t' (p_subdescr "eth2" "7") = Ok [{| gn_path := q; gn_data := Some (TLeaf (VStr (s_ "x"))) |}])
+    /\ (exists q, get_node ex_env ex_fo ex_ko ex_get ex_schema t' (p_subdescr "eth2" "7") = Ok [{| gn_path := q; gn_data := Some (TLeaf (VStr (s_ "x"))) |}])
     /\ root_ok ex_env ex_fo ex_ko ex_schema t'
     /\ sub_at t' [StF (s_ "Iface"); StK [VStr (s_ "eth1")]; StF (s_ "Mtu")] = Some (TLeaf (VInt U16 9000))
     /\ sub_at t' [StF (s_ "Iface"); StK [VStr (s_ "eth2")]; StF (s_ "Name")] = Some (TLeaf (VStr (s_ "eth2"))).
@@ -289,15 +289,15 @@ Qed.
 (* multi-key list (string + identity keys given in any order), ordered list, leaf-list, union *)
 Example c10_other_kinds_example :
   (exists t' q, set_node ex_env ex_fo ex_ko ex_set (TVString (s_ "x")) ex_schema ex_tree (p_acl_descr "a2" "ACL_IPV6") = Ok t'
-     /\ get_node ex_env ex_ko ex_get ex_schema t' (p_acl_descr "a2" "ACL_IPV6") = Ok [{| gn_path := q; gn_data := Some (TLeaf (VStr (s_ "x"))) |}])
+     /\ get_node ex_env ex_fo ex_ko ex_get ex_schema t' (p_acl_descr "a2" "ACL_IPV6") = Ok [{| gn_path := q; gn_data := Some (TLeaf (VStr (s_ "x"))) |}])
   /\ (exists t' q, set_node ex_env ex_fo ex_ko ex_set (TVString (s_ "log")) ex_schema ex_tree (p_rule_action "15") = Ok t'
-     /\ get_node ex_env ex_ko ex_get ex_schema t' (p_rule_action "15") = Ok [{| gn_path := q; gn_data := Some (TLeaf (VStr (s_ "log"))) |}])
+     /\ get_node ex_env ex_fo ex_ko ex_get ex_schema t' (p_rule_action "15") = Ok [{| gn_path := q; gn_data := Some (TLeaf (VStr (s_ "log"))) |}])
   /\ (exists t' q, set_node ex_env ex_fo ex_ko ex_set (TVLeafList [TVString (s_ "z")]) ex_schema ex_tree p_tags = Ok t'
-     /\ get_node ex_env ex_ko ex_get ex_schema t' p_tags = Ok [{| gn_path := q; gn_data := Some (TLeafList [VStr (s_ "z")]) |}])
+     /\ get_node ex_env ex_fo ex_ko ex_get ex_schema t' p_tags = Ok [{| gn_path := q; gn_data := Some (TLeafList [VStr (s_ "z")]) |}])
   /\ (exists t' q, set_node ex_env ex_fo ex_ko ex_set (TVString (s_ "five")) ex_schema ex_tree p_mode = Ok t'
-     /\ get_node ex_env ex_ko ex_get ex_schema t' p_mode = Ok [{| gn_path := q; gn_data := Some (TLeaf (VStr (s_ "five"))) |}])
+     /\ get_node ex_env ex_fo ex_ko ex_get ex_schema t' p_mode = Ok [{| gn_path := q; gn_data := Some (TLeaf (VStr (s_ "five"))) |}])
   /\ (exists t' q, set_node ex_env ex_fo ex_ko ex_set (TVJsonIetf (JNum 1400 0)) ex_schema ex_tree (p_mtu "eth0") = Ok t'
-     /\ get_node ex_env ex_ko ex_get ex_schema t' (p_mtu "eth0") = Ok [{| gn_path := q; gn_data := Some (TLeaf (VInt U16 1400)) |}]).
+     /\ get_node ex_env ex_fo ex_ko ex_get ex_schema t' (p_mtu "eth0") = Ok [{| gn_path := q; gn_data := Some (TLeaf (VInt U16 1400)) |}]).
 Proof.
   repeat split.
   - destruct (set_node ex_env ex_fo ex_ko ex_set (TVString (s_ "x")) ex_schema ex_tree (p_acl_descr "a2" "ACL_IPV6")) as [t'| |] eqn:Es;
